@@ -43,14 +43,14 @@ ID = "C12"
 LEVEL = "exploration"
 RULE = (
     "complete enumeration of the product (kind, dimension, sources given/defaulted, noise structure, how the dimension "
-    "is given to the constructor, feature naming, instance name, parameter source = seeded 4-iteration fit | hand-written "
+    "is given to the constructor, feature naming, instance name, parameter source = seeded 5-iteration fit | hand-written "
     "vector); a case is distinct when this tuple is new and non-trivial when a model was obtained, a file was written "
     "by save() and the full object/file/reloaded-object/re-saved-file comparison was executed on it"
 )
 ASSUMPTIONS = [
     "models are built through model_factory(kind, instance_name=..., **hyperparameters); hand-written parameters are "
     "given through load_parameters() followed by the same initialisation flag BaseModel.load sets",
-    "fits are tiny (5 individuals, n_iter=4, seeded); nothing is claimed about other data or longer runs",
+    "fits are tiny (5 individuals, n_iter=5 of which 2 burn-in, seeded); nothing is claimed about other data or longer runs",
     "gaussian-diagonal noise without a dimension/feature list at construction is documented as not implemented and is "
     "outside the grid; bernoulli fits may be refused by the data-driven initialisation (LeaspyInputError) on the tiny "
     "binary cohort, which is an accepted outcome",
@@ -68,6 +68,10 @@ FEATSETS = {
     "numeric": ["1", "2.5", "-3e1", "007"],  # numeric-looking strings
 }
 HAND_SCALE = 1.000000123456789  # variant 3: values that need more than single precision
+# 2 memoryless iterations, then 3 averaged ones: with the default burn-in (90 %) every iteration of so short a run is
+# memoryless, the parameters are then *assigned* the current realisations and "population variable == mode of its
+# prior" would hold without the final reset (the oracle would be vacuous; see self_check)
+FIT_KW = dict(n_iter=5, n_burn_in_iter=2, progress_bar=False)
 
 
 # ------------------------------------------------------------------------------------------------------------
@@ -172,7 +176,7 @@ def bounds(tier):
         "dimension_given_as": ["none", "dimension=", "features="],
         "feature_namings": {k: v[:3] for k, v in FEATSETS.items()},
         "instance_names": "kind, 'my-model', Kind (capitalised), other kinds' names",
-        "parameter_sources": "fit(mcmc_saem, n_iter=4, seed 0 [+VERIF_SEED on the default sub-grid]) on the 5-individual "
+        "parameter_sources": "fit(mcmc_saem, n_iter=5, n_burn_in_iter=2, seed 0 [+VERIF_SEED on the default sub-grid]) on the 5-individual "
                              "cohort; 4 hand-written vectors (3 catalogue variants + one needing double precision)",
         "save_options": ["default", "with_mixing_matrix=False"],
         "product": "full product" if tier != "quick" else
@@ -494,15 +498,20 @@ def check_file_vs_object(model, doc, case, judge, site):
 def compare_models(m1, m2, case, judge, site, ips, ages, trajs1):
     """Reloaded object vs original: class, structure, hyperparameters, parameters (float32), trajectories."""
     feat = config_feature(case)
-    s1, s2 = structure(m1), structure(m2)
+    s1 = structure(m1)
+    try:
+        s2 = structure(m2)
+        sections = (("parameters", m1.parameters, m2.parameters), ("hyperparameters", m1.hyperparameters, m2.hyperparameters))
+    except Exception as e:
+        judge.add(site, f"reloaded model cannot be read: {type(e).__name__}", feat, exc_text(e))
+        return None
     if s1["class"] != s2["class"]:
         judge.add(site, "loaded as another class", feat, "class", expected=s1["class"], observed=s2["class"])
         return None
     for key in s1:
         if s1[key] != s2[key]:
             judge.add(site, f"{key} differs after reload", feat, key, expected=s1[key], observed=s2[key])
-    for section, v1, v2 in (("parameters", m1.parameters, m2.parameters),
-                            ("hyperparameters", m1.hyperparameters, m2.hyperparameters)):
+    for section, v1, v2 in sections:
         if list(v1) != list(v2):
             judge.add(site, f"{section} names differ after reload", feat, section, expected=list(v1), observed=list(v2))
             continue
@@ -560,7 +569,7 @@ def build(case, judge):
             stage = "fit"
             df = fit_frame(case)
             data = Data.from_dataframe(df, "joint") if kind == "joint" else Data.from_dataframe(df)
-            model.fit(data, "mcmc_saem", seed=case["seed"], n_iter=4, progress_bar=False)
+            model.fit(data, "mcmc_saem", seed=case["seed"], **FIT_KW)
             return model, None
     except CaseTimeout:
         raise
@@ -650,6 +659,11 @@ def run_case(case, tmpdir):
         model, status = build(case, judge)
         if model is None:
             return dict(violations=judge.viol, outcome=status, nontrivial=False, counts=counts)
+        try:
+            structure(model), model.parameters, model.hyperparameters
+        except Exception as e:
+            judge.add("build", f"model cannot be read: {type(e).__name__}", feat, exc_text(e))
+            return dict(violations=judge.viol, outcome="build-unreadable", nontrivial=False, counts=counts)
         if case["src"] == "fit":
             counts["fits"] = 1
             check_prior_mode(model, judge, feat)
@@ -762,3 +776,22 @@ def replay(case):
     finally:
         shutil.rmtree(tmpdir, ignore_errors=True)
     return [{"signature": s, "message": m} for s, m, _, _ in res["violations"]]
+
+
+def self_check():
+    """Sensitivity of the 'population variables at the mode of their prior' oracle: with FIT_KW the realisations of
+    the last MCMC iteration must differ from the final parameters (otherwise the oracle could not see a missing reset)."""
+    from leaspy.algo import AlgorithmSettings, algorithm_factory
+    from leaspy.io.data import Dataset
+
+    case = dict(src="fit", kind="logistic", dim=2, ns=1, noise=None, dimgiven="dimension", name="logistic", feat="plain", seed=0)
+    with warnings.catch_warnings(), quiet():
+        warnings.simplefilter("ignore")
+        model = model_factory("logistic", **hyper_kwargs(case))
+        dataset = Dataset(Data.from_dataframe(fit_frame(case)))
+        model.initialize(dataset)
+        out = algorithm_factory(AlgorithmSettings("mcmc_saem", seed=0, **FIT_KW)).run(model, dataset)
+    state = out[0] if isinstance(out, tuple) else out
+    moved = [n for n in model.population_variables_names if not torch.equal(state[n], state[n + "_mean"])]
+    if not moved:
+        raise RuntimeError("C12 self-check: the sampling state equals the prior mode after the fit; the oracle is vacuous")
